@@ -50,6 +50,7 @@ Reset ==
   /\ nsent' = [c \in Clients |-> 0] /\ cbuf' = [c \in Clients |-> <<>>]
   /\ cclosed' = [c \in Clients |-> FALSE] /\ copen' = [c \in Clients |-> TRUE]
   /\ closing' = [c \in Clients |-> FALSE] /\ inq' = [c \in Clients |-> <<>>]
+  /\ cpaused' = [c \in Clients |-> FALSE] /\ obuf' = [c \in Clients |-> <<>>] /\ npause' = 0
   /\ msg' = [m \in 1..MaxMsg |-> FreshMsg] /\ frag' = <<>>
   /\ outfq' = [n \in Nodes |-> <<>>] /\ infq' = [n \in Nodes |-> <<>>]
   /\ sopen' = [n \in Nodes |-> FALSE] /\ sgen' = [n \in Nodes |-> 0]
